@@ -209,6 +209,15 @@ func evaluate(text string, nilHolder string, opt evalOptions) (outcome, key, msg
 	return outAccepted, "", ""
 }
 
+// parseOnly loads a text once more to obtain the error value for a message.
+func parseOnly(text string) (run.Config, base.LogSchema, run.ConfigStats, error) {
+	path := filepath.Join(scratch(), "config-again.yml")
+	if err := os.WriteFile(path, []byte(text), 0o644); err != nil {
+		return run.Config{}, base.LogSchema{}, run.ConfigStats{}, err
+	}
+	return run.ParseConfigFile(path)
+}
+
 // ---------------------------------------------------------------------------------------------------------------------
 
 type nopConsumer struct {
@@ -372,6 +381,12 @@ func instantiateOrchestrated(conf run.Config, schema base.LogSchema, root string
 			hb.RootPath = filepath.Join(root, sub)
 		}
 	}
+	t0 := time.Now()
+	trace := func(what string) {
+		if os.Getenv("C16_TRACE") != "" {
+			fmt.Fprintf(os.Stderr, "trace %-20s %v\n", what, time.Since(t0))
+		}
+	}
 	allocator := base.NewLogAllocator(schema, len(conf.OutputBuffersPairs))
 	args := bconfig.PipelineArgs{
 		Schema:              schema,
@@ -384,6 +399,7 @@ func instantiateOrchestrated(conf run.Config, schema base.LogSchema, root string
 	}
 	mf := promreg.NewMetricFactory("c16b_", nil, nil)
 	orch := conf.Orchestration.Value.StartOrchestrator(logger.Root(), args, mf)
+	trace("started")
 
 	inputCounter := base.NewLogInputCounter(mf.AddOrGetPrefix("input_", nil, nil))
 	now := time.Unix(1600000000, 0)
@@ -403,6 +419,7 @@ func instantiateOrchestrated(conf run.Config, schema base.LogSchema, root string
 		sink.Tick()
 	}
 	sink.Close()
+	trace("fed")
 
 	if listen {
 		stop := channels.NewSignalAwaitable()
@@ -425,6 +442,8 @@ func instantiateOrchestrated(conf run.Config, schema base.LogSchema, root string
 			key, msg = "accepted-error:input-stop-timeout", "inputs did not stop"
 		}
 	}
+	trace("inputs stopped")
 	orch.Shutdown()
+	trace("shutdown")
 	return key, msg
 }
